@@ -278,6 +278,10 @@ class Normaliser(ast.NodeTransformer):
             if isinstance(s, ast.If):
                 rest = stmts[i + 1:]
                 body, orelse, test = s.body, s.orelse, s.test
+                if orelse and len(body) == 1 and isinstance(body[0], ast.Pass):
+                    test, body, orelse = negate(test), orelse, []           # `if c: pass else: X` is `if not c: X`
+                if len(orelse) == 1 and isinstance(orelse[0], ast.Pass):
+                    orelse = []
                 if exit_stmt is not None and not orelse and len(body) == 1 and type(body[0]) is type(exit_stmt) \
                         and getattr(body[0], 'value', None) is None and rest and not _defines(rest):
                     # N13: the guard `if c: <leave>` followed by R (to the end of a block whose end means <leave>) is `if not c: R`
@@ -470,7 +474,9 @@ def normal_text(src, light=False):
 
 # ------------------------------------------------------------------------------------------------ N10 copy propagation
 PURE_CALLS = ('len', 'max', 'min', 'abs', 'isinstance', 'issubclass', 'bool', 'int', 'sum', 'any', 'all', 'type', 'getattr',
-              'hasattr', 'tuple', 'frozenset', 'str', 'repr', 'divmod', 'range', 'xrange', 'enumerate', 'zip', 'reversed')
+              'hasattr', 'tuple', 'frozenset', 'str', 'repr', 'divmod', 'range', 'xrange', 'enumerate', 'zip', 'reversed',
+              # one-expression accessors of the analysed code base (prophy/composite.py, prophy/generators.py)
+              'wire_size', 'wire_alignment', 'distance_to_next_multiply')
 PURE_METHODS = ('_types', 'get', 'format', 'join', 'split', 'ljust', 'rjust', 'strip', 'lstrip', 'rstrip', 'startswith', 'endswith', 'lower',
                 'upper', 'keys', 'values', 'items', 'index', 'count', 'rfind', 'find', 'replace', 'splitlines', 'isdigit')
 MUTATORS = ('append', 'extend', 'insert', 'pop', 'remove', 'clear', 'update', 'add', 'discard', 'sort', 'reverse', 'setdefault',
@@ -595,8 +601,12 @@ def propagate_copies(fn):
                         continue
                 in_loop = _enclosing_loop_targets(fn, blk)
                 ok = True
+                # names bound by a comprehension inside a *value* (`any(c for x in xs)`) are local to it; a container built by a
+                # comprehension keeps its name (substituting it into several readers would rebuild it per reader)
+                comp_bound = set(t.id for c in ast.walk(e) if isinstance(c, ast.comprehension) for t in ast.walk(c.target)
+                                 if isinstance(t, ast.Name)) if is_pure(e) else set()
                 for n in ast.walk(e):
-                    if isinstance(n, ast.Name) and n.id != x:
+                    if isinstance(n, ast.Name) and n.id != x and n.id not in comp_bound:
                         c = cnt.get(n.id, 0)
                         if c == 0 or (c == 1 and n.id in in_loop):
                             continue
@@ -611,6 +621,8 @@ def propagate_copies(fn):
                 all_uses = [n for n in (ast.walk(fn) if closure else _own_nodes(fn)) if isinstance(n, ast.Name) and n.id == x and isinstance(n.ctx, ast.Load)]
                 if not uses or len(uses) != len(all_uses):
                     continue
+                if len(uses) > 1 and any(isinstance(n, ast.comprehension) for n in ast.walk(e)):
+                    continue        # an aggregate over a collection, read in several places, keeps its name
                 if _reads_written_state(e, later, uses, fn if closure else owner, whole=closure):
                     continue
                 for s in later:
@@ -810,11 +822,68 @@ def _reads_written_state(e, later, uses, owner, whole=False):
     return False
 
 
+def split_live_ranges(fn):
+    """N14b: a name bound in several places (`msg = ...` in each branch of an if) whose every read follows one of the bindings
+    in that binding's own block - and so can only see that binding - is a separate local per binding: each is renamed apart, and
+    being bound once it takes part in N10 / N15 like any other single-definition local."""
+    cnt, nested_reads, declared = _bindings(fn)
+    params = set(a.arg for a in fn.args.posonlyargs + fn.args.args + fn.args.kwonlyargs)
+    if fn.args.vararg:
+        params.add(fn.args.vararg.arg)
+    if fn.args.kwarg:
+        params.add(fn.args.kwarg.arg)
+    own = _own_nodes(fn)
+    serial = [0]
+    for x in sorted(k for k, c in cnt.items() if c >= 2):
+        if x in params or x in nested_reads or x in declared or x == '_' or x.startswith('__v'):
+            continue
+        stores = [n for n in own if (isinstance(n, ast.Name) and n.id == x and isinstance(n.ctx, (ast.Store, ast.Del))) or
+                  (isinstance(n, ast.AugAssign) and isinstance(n.target, ast.Name) and n.target.id == x) or
+                  (isinstance(n, ast.ExceptHandler) and n.name == x) or
+                  (isinstance(n, (ast.FunctionDef, ast.ClassDef)) and n.name == x)]
+        sites = []
+        ok = True
+        for blk, owner in _blocks(fn):
+            for i, st in enumerate(blk):
+                if isinstance(st, ast.Assign) and len(st.targets) == 1 and isinstance(st.targets[0], ast.Name) and st.targets[0].id == x:
+                    sites.append((blk, i, st))
+        plain = set(id(st.targets[0]) for _, _, st in sites)
+        if len(sites) < 2 or any(id(n) not in plain for n in stores if isinstance(n, ast.Name)) or \
+                any(not isinstance(n, ast.Name) for n in stores):
+            continue
+        loads = [n for n in own if isinstance(n, ast.Name) and n.id == x and isinstance(n.ctx, ast.Load)]
+        claimed = {}
+        regions = []
+        for blk, i, st in sites:
+            region = [n for s_ in blk[i + 1:] for n in ast.walk(s_)]
+            ids = set(id(n) for n in region)
+            # the definition may not read the name (`x = x + 1` continues an earlier range), no other binding inside the region
+            if any(isinstance(n, ast.Name) and n.id == x for n in ast.walk(st.value)) or any(id(o.targets[0]) in ids for _, _, o in sites if o is not st):
+                ok = False
+                break
+            regions.append((st, region))
+            for n in region:
+                if isinstance(n, ast.Name) and n.id == x and isinstance(n.ctx, ast.Load):
+                    if id(n) in claimed:
+                        ok = False
+                    claimed[id(n)] = st
+        if not ok or any(id(n) not in claimed for n in loads):
+            continue
+        for st, region in regions:
+            serial[0] += 1
+            new = '%s__r%d' % (x, serial[0])
+            st.targets[0].id = new
+            for n in region:
+                if isinstance(n, ast.Name) and n.id == x and isinstance(n.ctx, ast.Load):
+                    n.id = new
+
+
 def propagate_all(tree):
     fns = [n for n in ast.walk(tree) if isinstance(n, (ast.FunctionDef, ast.AsyncFunctionDef))]
     for fn in fns:
         string_accumulators(fn)
         split_versions(fn)
+        split_live_ranges(fn)
         propagate_copies(fn)
         forward_substitute(fn)
         propagate_copies(fn)
@@ -989,8 +1058,13 @@ def forward_substitute(fn):
                         if not isinstance(user.target, ast.Name):
                             continue
                     for c in cand:
-                        for root in scope_nodes:
-                            _Subst(c.targets[0].id, c.value).visit(root)
+                        sub = _Subst(c.targets[0].id, c.value)
+                        if isinstance(user, (ast.If, ast.While)):
+                            user.test = sub.visit(user.test)        # (the test / iterable may be the bare name itself)
+                        elif isinstance(user, ast.For):
+                            user.iter = sub.visit(user.iter)
+                        else:
+                            sub.visit(user)
                     del blk[i + k:j]
                     done = True
                     break
